@@ -159,6 +159,18 @@ CLAIMS = {
    note=COMMON_NOTE + "External ops are issued while the thread is at rest (plus set/cancel from callbacks); interleavings at critical-section granularity rest on the generated lock certificates. _timer_id++ at LONG_MAX is signed overflow (unreachable: 2^63 sets).",
    technique="Lean 4 trace-invariant theorems on a model regenerated from the C source + virtual-time differential correspondence on the real timer thread",
    ref="5/C18"),
+
+ "C15": dict(
+   text="Proof (PARTIAL: file-system/lock semantics are model assumptions; real interleavings are sampled). 17 theorems (Props/C15.lean) over a process/file-system transition system whose start-up and "
+        "shutdown syscall programs (open/fstat/F_SETLK/unlink/socket/bind/listen/pid file/seed, flags, modes, guards, whether lock_create re-validates the locked inode against the name) are "
+        "regenerated from lock.c/munged.c/conf.c/random.c every run: exclusive non-blocking whole-file write lock; lock failure is fatal; lock precedes the socket unlink; for every schedule of any "
+        "number of start-ups, overlapping clean shutdowns and crashes at any point at most one owner, holding the lock on the inode the name refers to (full strength, requires the generated "
+        "lockRevalidates = true); a loser never touches the owner's socket/lock/pid names; restart after any crash succeeds; clean stop leaves no socket/lock/pid and a seed. Tie: the REAL munged "
+        "built from the working tree under strace - syscall order vs the generated program, second start refused with the owner untouched and serving, ~20 SIGKILL injection points each followed "
+        "by a restart, concurrent starts with injected delays, and the lock-file window schedule (both orders) with the model's prediction and an oracle from the statement.",
+   note=COMMON_NOTE + "POSIX fcntl-lock / namespace semantics are assumptions; --force and background mode are not modelled; outcomes count only if they reproduce on an immediate re-run. Found F5 (fixed). Observations outside the statement: the pid file is unlinked after the lock is released (a daemon started during another's shutdown tail can lose its pid file); a SIGTERM between the got_terminate test and accept() is seen only at the next connection.",
+   technique="Lean 4 invariant proofs over a transition system with programs regenerated from the C source + strace-scheduled runs of the real binary",
+   ref="5/C15"),
 }
 NA_REASON = "check not built yet (work in progress, see DESIGN.md section 7 staging)"
 
